@@ -73,6 +73,11 @@ def generate(rng, tier):
             ops.append({"op": "write", "path": f, "c": tree[f]["c"], "fault": "restore_content"})
     late = {k for k, v in tree.items() if v.get("late")}
     env["tree"] = {k: {kk: vv for kk, vv in v.items() if kk != "late"} for k, v in tree.items() if k not in late}
+    if rng.random() < 0.08:
+        # the last create was killed after its manifest was moved into place and before the chain was rewritten: the
+        # folder holds a complete manifest that the chain does not list, and flatten is the first command to see it
+        ops.append(dict(scen.cmd("create", "@R", *gen.fmt_args(gen.pick_formats(rng, 1, 2))),
+                        kill={"when": {"kind": "replace", "contains": ".mhl", "nth": 1}, "mode": "after"}))
     prior = None
     if rng.random() < 0.2:
         # the destination already holds the packing list of another card, flattened earlier the same day; that card
